@@ -85,6 +85,14 @@ func (rn *runner) runPattern(text string, subjects [][]byte, e2e bool) {
 	w.Emit(gen.Case{In: "print " + tree + " " + gen.NonPrintable(r0), Impl: gen.Hex([]byte(printed)), Class: "print",
 		Nontrivial: len(r0.Sub) > 0, Detail: gen.Detail(det)})
 
+	// --- the shape the theorems assume of parser output (no empty literal / alternation, clean classes, n ≤ m in x{n,m}),
+	//     checked by the model on the parsed tree and on the re-parsed printout
+	w.Emit(gen.Case{In: "wf " + tree, Impl: "print=1 rep=1", Class: "shape", Detail: gen.Detail(det)})
+	if rp, err := syntax.Parse(printed, flags); err == nil {
+		if t, ok := gen.ReTree(rp); ok {
+			w.Emit(gen.Case{In: "wf " + t, Impl: "print=1 rep=1", Class: "shape", Detail: gen.Detail(det)})
+		}
+	}
 	// --- correspondence: uncapture / hasCapture (on a fresh tree: uncapture mutates)
 	{
 		fresh := parse(text)
